@@ -156,7 +156,7 @@ def gen_scenario(prng, tier, index, focus):
         n = interesting.size(prng, 1, 1025)                 # boundary vertex counts (most vertices then have degree zero)
     many_tops = prng.random() < 0.03
     sc = {"variant": variant, "algo": algo, "via": prng.choice(("direct", "factory")),
-          "rows": prng.choice(("tuple", "tuple", "list", "list", "np_int64", "np_array")), "n": n}
+          "rows": prng.choice(("tuple", "tuple", "list", "list", "np_int64", "np_array", "np_int8", "np_uint8_array")), "n": n}
     cols = []
     if algo in ("fast", "network"):
         ntop = prng.randrange(1, 5) if not many_tops else prng.randrange(5, 10)
@@ -196,6 +196,8 @@ def gen_scenario(prng, tier, index, focus):
             else:
                 spec["names"] = [f"m{j}e{i}" for i in range(ne)]
             spec["names_ret"] = prng.choice(("tuple", "list"))
+            if prng.random() < 0.1:
+                spec["np_ids"] = True
             motifs.append(spec)
             count = prng.randrange(0, 5 if not big else (8 if not huge else 30))
             for osz in spec["orbits"]:
@@ -350,8 +352,11 @@ class Recorder:
         return cb
 
 
-def _shape_fn(edges, ret):
+def _shape_fn(edges, ret, np_ids=False):
     def fn(vs):
+        if np_ids:
+            import numpy as np
+            vs = [np.int64(v) for v in vs]           # a numpy-style builder: the ids it returns are numpy integers
         es = [(vs[a], vs[b]) for a, b in edges]
         if ret == "bare":
             return es[0]
@@ -402,7 +407,7 @@ def build_params(sc, rec):
                 idx.append(col)
                 col += 1
             indices.append(idx)
-            fns.append(rec.build(j, _shape_fn(m["edges"], m["ret"])))
+            fns.append(rec.build(j, _shape_fn(m["edges"], m["ret"], m.get("np_ids", False))))
             names.append(rec.names(j, m["names"], m.get("names_ret", "tuple")))
         sh = sc.get("shared_builder")
         if sh:
@@ -431,6 +436,15 @@ def make_jds(sc):
     numpy int64 scalars (degrees that come out of numpy code), or the whole sequence as a list of numpy rows."""
     if sc["rows"] == "tuple":
         return [tuple(r) for r in sc["jds"]]
+    tiny = all(max(r, default=0) <= 127 for r in sc["jds"])
+    if sc["rows"] == "np_int8" and tiny:
+        # narrow dtypes (degree tables stored compactly): every DEGREE fits, column sums need not - the library never has to
+        # add degrees in their own dtype, and must not
+        import numpy as np
+        return [tuple(np.int8(x) for x in r) for r in sc["jds"]]
+    if sc["rows"] == "np_uint8_array" and sc["jds"] and all(max(r, default=0) <= 255 for r in sc["jds"]):
+        import numpy as np
+        return [np.array(r, dtype=np.uint8) for r in sc["jds"]]
     small = all(max(r, default=0) < 2 ** 31 for r in sc["jds"])         # column sums of int64 degrees must stay far below 2^63
     if sc["rows"] == "np_int64" and small:
         import numpy as np
